@@ -206,13 +206,20 @@ StepEnd(e) ==
          A1 == IF e.quiescent /\ e.head >= 0 /\ \E r \in TRounds : okAt(r) # want(r) THEN Conf(e, "final store differs from the tracked store") ELSE {}
          repaired == e.returned /\ \A r \in info.reported : okAt(r)
          converged == IF sc.mode = "repair" THEN repaired ELSE ConvergedAt(e.head, TGoal)
+         since == IF "attempts_since_progress" \in DOMAIN e THEN e.attempts_since_progress ELSE 0
          cause == IF Len(e.blocked) > 0 /\ sc.mode = "follow" THEN "blocked-on-silent-stream-no-timeout"
                   ELSE IF Len(e.blocked) > 0 /\ sc.mode = "repair" /\ ~e.returned THEN "blocked-on-silent-stream-no-timeout"
                   ELSE IF sc.mode = "follow" /\ e.ret = "sync-returned-errchan-nil" THEN "no-retry-after-failed-attempt"
+                  ELSE IF sc.mode = "follow" /\ since >= 5 THEN "retries-without-progress"
                   ELSE IF sc.mode = "follow" THEN "still-failing-after-retries"
                   ELSE IF sc.mode = "repair" THEN "gave-up-after-retry"
                   ELSE IF sc.mode = "run" THEN "budget-exhausted" ELSE "other"
-         A2 == IF e.liveness /\ e.quiescent /\ THonestAhead /\ ~converged
+         \* a follower that keeps retrying is "not converging" (rather than slow) only when the real code ended
+         \* at least 5 attempts in a row without storing a beacon (End.attempts_since_progress, counted by the harness
+         \* from the process's own announcements of failed attempts); a stream that never ends is the other cause
+         judged == sc.mode # "follow" \/ sc.harness # "core" \/ converged \/ Len(e.blocked) > 0
+                   \/ e.ret = "sync-returned-errchan-nil" \/ e.follow_returned \/ since >= 5
+         A2 == IF e.liveness /\ e.quiescent /\ THonestAhead /\ ~converged /\ judged
                  THEN {Alarm("Converges", e, cause)} ELSE {}
      IN alarms' = alarms \cup A1 \cup A2
   /\ UNCHANGED <<sc, ts, str, info>>
